@@ -13,6 +13,10 @@ let () =
     | "rlower" -> Mroutes_cmd.run_rlower
     | "rsolve" -> Mroutes_cmd.run_rsolve
     | "lp" -> Lp_cmd.run_case
+    | "solvef" -> Fsolve_cmd.run_solvef
+    | "lowerf" -> Fsolve_cmd.run_lowerf
+    | "propf" -> Fsolve_cmd.run_propf
+    | "searchf" -> Fsolve_cmd.run_searchf
     | "api" -> Api_cmd.run_case
     | "fi" -> Fi_cmd.run_case_fi
     | "ctxf" -> Fi_cmd.run_case_ctxf
